@@ -27,7 +27,7 @@ FILE_STAGES = {
     "_windowwithtimeorcount": ["window_time_or_count", "buffer_time_or_count"], "_groupbyuntil": ["group_by", "group_by_until", "group_by_until_self"], "utils": ["window_count_skipwin", "window_boundaries_skipwin", "window_count", "window_boundaries"],
     "_groupjoin": ["group_join_count", "window_toggle"], "_join": ["join"], "_multicast": ["share", "publish_ref_count", "publish_mapper"],
     "_refcount": ["share", "publish_ref_count", "replay_ref_count"], "connectableobservable": ["share", "publish_ref_count"],
-    "using": ["using"], "_finallyaction": ["finally_action"], "_do": ["do_action", "do_finally", "do_on_dispose"],
+    "using": ["using"], "_finallyaction": ["finally_action", "finally_raises"], "_do": ["do_action", "do_finally", "do_on_dispose"],
     "_subscribeon": ["subscribe_on"], "_observeon": ["observe_on"], "_sequenceequal": ["sequence_equal"],
     "_expand": ["expand_take"], "_exclusive": ["exclusive"], "_partition": ["partition_merge"],
 }
@@ -50,6 +50,10 @@ def traced_run(case):
 def model_request(case):
     if case["op"] != "pipeline":
         return case
+    if any(st[0] == "finally_raises" for st in case["pipeline"]["stages"]):
+        # a cleanup callback that raises aborts the propagation of that dispose() call half-way (the containers are not
+        # exception-safe); the heap model has no raising leaves, so these cases are judged by the release oracle only
+        return None
     out, tr = traced_run(case)
     if len(tr.ops) > 1500:
         return None
